@@ -41,9 +41,9 @@ func (s Spec) String() string {
 
 // PartDef is what a part registers.
 type PartDef struct {
-	Rule  string
-	Gen   func(tier string) []Spec                      // enumerate scenarios, simplest first
-	Build func(sp Spec, p *ev.Part) *vsched.Scenario     // nil Scenario: the spec is run by Direct
+	Rule   string
+	Gen    func(tier string) []Spec                           // enumerate scenarios, simplest first
+	Build  func(sp Spec, p *ev.Part) *vsched.Scenario         // nil Scenario: the spec is run by Direct
 	Direct func(sp Spec, p *ev.Part, known func(string) bool) // parts that drive the explorer themselves (BFS etc.)
 }
 
@@ -176,7 +176,7 @@ func main() {
 	list := flag.Bool("list", false, "print the scenario specs and exit")
 	one := flag.String("one", "", "run a single spec given as JSON in this process (debugging)")
 	flag.Parse()
-	runtime.GOMAXPROCS(2) // the scheduler hands a baton around; more Ps only add contention
+	runtime.GOMAXPROCS(1) // the scheduler hands a baton around; more Ps only add contention
 	if *worker != "" {
 		workerMain(*worker, *out)
 		return
